@@ -6,6 +6,8 @@ Confirm a seeded change produced by a sub-agent, then run the property's check a
  3. store under /verif/seeded/<seed-id>/ (patch.diff, demo, meta.json)"""
 import json, os, shutil, subprocess, sys, time
 out, n, pid, sid = sys.argv[1], sys.argv[2], sys.argv[3], sys.argv[4]
+VERIF = os.environ.get("VERIF_DIR", "/verif")   # a copy of /verif to run the check in (the seed is always stored under /verif/seeded)
+REPO = os.environ.get("VERIF_REPO", "/repo")    # the worktree the change is applied to for the check
 ENV = dict(os.environ, GOFLAGS="-mod=mod", GOPROXY="off", GOSUMDB="off", GOTOOLCHAIN="local")
 def sh(cmd, cwd=None, timeout=1800, env=ENV):
     p = subprocess.run(cmd, shell=True, cwd=cwd, env=env, stdout=subprocess.PIPE, stderr=subprocess.STDOUT, text=True, timeout=timeout)
@@ -40,17 +42,18 @@ finally:
     sh("git -C /repo worktree remove --force %s" % WT)
 verdict = None
 if confirmed:
-    assert sh("git -C /repo status --porcelain")[1].strip() == "", "/repo not clean"
-    sh("git -C /repo apply %s" % diff)
+    assert sh("git -C %s status --porcelain" % REPO)[1].strip() == "", REPO + " not clean"
+    sh("git -C %s apply %s" % (REPO, diff))
     try:
         t0 = time.time()
-        rc, o = sh("cd /verif && ./check %s --tier quick" % pid, timeout=3600)
+        rc, o = sh("cd %s && ./check %s --tier quick" % (VERIF, pid), timeout=3600)
         viol = [l for l in o.splitlines() if l.startswith("VIOLATION")]
         verdict = "MISSED" if not viol else ("caught(no-input)" if "no-failing-input-found" in viol[0] else "caught(replay)")
         print("check %s: %s in %.0fs %s" % (pid, verdict, time.time() - t0, viol[:1]))
     finally:
-        sh("git -C /repo checkout -- .")
-        sh("git -C /verif checkout -- evidence/")  # evidence files must come from runs on the unchanged tree
+        sh("git -C %s checkout -- ." % REPO)
+        if VERIF == "/verif":
+            sh("git -C /verif checkout -- evidence/")  # evidence files must come from runs on the unchanged tree
     d = os.path.join("/verif/seeded", sid)
     os.makedirs(d, exist_ok=True)
     shutil.copyfile(diff, os.path.join(d, "patch.diff"))
